@@ -151,3 +151,66 @@ func VP_C19_download_template() {
 		}
 	}
 }
+
+//vp:property C19
+//vp:set s 2 3
+//vp:bounds host selection "any": the host query parameter is an ARBITRARY ASCII string of 1..s bytes (CR, LF, blanks, colons included); the session's user name (from the identity provider) an arbitrary ASCII string of 1..2 bytes; no template, no domain splitting
+//vp:assume ASCII; real RDP builder (fatih/structs answered from the static types); a request whose host or user name does not fit on a line may be refused (400/500) — a file that IS served must be well-formed and read back as what the builder held
+//vp:reach served refused
+func VP_C19_download_any_host() {
+	vpResetWeb()
+	vpRealBuilder = true
+	defer func() { vpRealBuilder = false }()
+	vpBuilt, vpServed, vpServedBody = nil, 0, ""
+	host := vpString("host", vpParam("s"))
+	user := vpString("user", 2)
+	vpAssume(len(host) >= 1 && len(user) >= 1)
+	for i := 0; i < len(host); i++ {
+		vpAssume(host[i] < 0x80)
+	}
+	for i := 0; i < len(user); i++ {
+		vpAssume(user[i] < 0x80)
+	}
+	vpQueryVals = url.Values{"host": {host}}
+	h := (&Config{
+		PAATokenGenerator:  func(ctx context.Context, u string, host string) (string, error) { return "PAATOKEN", nil },
+		UserTokenGenerator: func(ctx context.Context, u string) (string, error) { return "USERTOKEN", nil },
+		Hosts:              []string{"h1:3389"},
+		HostSelection:      "any",
+		GatewayAddress:     &url.URL{Host: "gw.example:443"},
+	}).NewHandler()
+	id := identity.NewUser()
+	id.SetUserName(user)
+	id.SetAuthenticated(true)
+	id.SetAttribute(identity.AttrClientIp, "198.51.100.7")
+	id.SetAttribute(identity.AttrAccessToken, "AT")
+	w := vpNewRW()
+	h.HandleDownload(w, vpRequest("GET", http.Header{}, id))
+	vpObserve("status", uint64(w.status))
+	if vpServed == 0 {
+		vpReach("refused")
+		vpAssert(w.status == 400 || w.status == 500, "refusal-status")
+		return
+	}
+	vpReach("served")
+	body := vpServedBody
+	vpObserveStr("body", body)
+	vpAssert(vpBuilt != nil, "file-built")
+	if vpBuilt == nil {
+		return
+	}
+	m, err := rdpparser.Parser().Unmarshal([]byte(body))
+	vpAssert(err == nil, "served-file-is-accepted-by-the-gateways-own-reader")
+	if err != nil {
+		return
+	}
+	for _, key := range []string{"username", "full address", "gatewayhostname", "gatewayaccesstoken", "gatewaycredentialssource", "gatewayusagemethod"} {
+		vpAssert(vpCountKey(body, key) == 1, "exactly-one-line-per-forced-setting")
+	}
+	fa, _ := m["full address"].(string)
+	un, _ := m["username"].(string)
+	gh, _ := m["gatewayhostname"].(string)
+	vpAssert(fa == vpBuilt.Settings.FullAddress && fa == host, "target-reads-back-as-the-builder-held-it")
+	vpAssert(un == vpBuilt.Settings.Username && un == user, "user-name-reads-back-as-the-builder-held-it")
+	vpAssert(gh == "gw.example:443", "gateway-reads-back-as-configured")
+}
